@@ -84,7 +84,7 @@ theorem invP_stepLast_main (V : Variant) (hW : WF V) (s s'' : State) (m m' : Mon
   all_goals (simp only [stepMon] at hs; (repeat' split at hs) <;> simp at hs)
   all_goals (obtain ⟨h1, h2⟩ := hs; subst h1; subst h2)
   all_goals (constructor <;> simp only [lph, liter, lcur] at * <;> (try assumption))
-  all_goals (first | (grind [preExit, iterPh, curPh, List.mem_erase_of_ne]) | skip)
+  all_goals (first | (grind [preExit, iterPh, curPh]) | skip)
 
 
 theorem invP_stepLast (V : Variant) (hW : WF V) (s s'' : State) (m m' : Mon) (h : InvP V s) (hmon : s.mon = some m)
